@@ -1,6 +1,6 @@
 """C17 -- parse_split_specification: complete functional contract (clauses taken from the property text)."""
 import z3
-from pyvc.core import Contract, spec_split, IS_DIGIT, IS_INT_LIT, STR_TO_INT, ssum_fn, list_array
+from pyvc.core import Contract, spec_split, IS_DIGIT, IS_INT_LIT, STR_TO_INT, ssum_fn, list_array, str_slice
 from pyvc.sym import (VInt, VBool, VStr, VList, VOpt, VNone, INT, BOOL, STR, TList, TOpt, conj, disj, neg, ite,
                       implies, length, fresh_name, tobool, toint, qforall, as_opt, IntS, IntArr, StrS)
 
@@ -20,9 +20,8 @@ def P(spec):
 
 
 def pre(s):
-    """s[:-1]"""
-    n = z3.Length(s)
-    return z3.SubString(s, 0, z3.If(n >= 1, n - 1, 0))
+    """s[:-1] (the very term the executor builds for that slice)"""
+    return str_slice(s, None, -1)
 
 
 def isP(s):
@@ -92,7 +91,8 @@ def build(reg):
             VBool(parts.n == itt),
             VBool(qforall([j], z3.Implies(z3.And(0 <= j, j < itt),
                                           z3.And(z3.Not(bad(spec, j)), toint(parts.get(j)) == z3.Select(B, j),
-                                                 z3.Select(B, j) >= 0)), [toint(parts.get(j))])),
+                                                 z3.Select(B, j) >= 0)),
+                          [toint(parts.get(j)), Pl.get(j).t, z3.Select(B, j)])),
             VBool(ssum_fn()(list_array(parts), itt) == ssum_fn()(B, itt)),
             VBool(ri.isnone == z3.ForAll([j], z3.Implies(z3.And(0 <= j, j < itt), z3.Not(isRest0(Pl.get(j).t))))),
             VBool(z3.Implies(z3.Not(ri.isnone), z3.And(0 <= rv, rv < itt, isRest0(Pl.get(rv).t)))),
